@@ -26,6 +26,7 @@ func init() {
 }
 
 func ruleC15(c *Check) {
+	c.addressRoles("C15.9")
 	ents := map[string]*Entry{}
 	for _, e := range c.entries("C15.1") {
 		ents[e.Msg] = e
@@ -695,6 +696,12 @@ func ruleC17(c *Check) {
 		c.req(len(q.mut) == 0, "C17.2", q.name+"#read-only", q.fn.Body.Pos(), "query entry performs no state change"+condStr(len(q.mut) > 0, ": "+strings.Join(q.mut, ", ")))
 	}
 	c.reconstruction("C17.4")
+	c.paramSetExact("C17.9")
+	var qfns []*Func
+	for _, q := range append(append([]querySig{}, grpc...), legacy...) {
+		qfns = append(qfns, q.fn)
+	}
+	c.lookupsIndependentOfConfiguration("C17.10", qfns)
 	// C17.6 id length checks before point lookups by request id
 	for _, q := range append(append([]querySig{}, grpc...), legacy...) {
 		for _, e := range c.P.SummaryOf(q.fn).Effs {
@@ -862,4 +869,103 @@ func (c *Check) queryIndexMaintained(rule string) {
 		c.req(ok, rule, "MsgBindService#index-key", idx.Pos, "the index entry is keyed by (owner, service, provider) of the new binding: "+fmtTerms(k))
 	}
 	c.genesisBindingSetter(rule)
+}
+
+// mutableRecordFields: fields of stored records that messages and block processing rewrite during the record's life
+// (the immutable identity fields and the batch counter, which only grows, are not listed).
+var mutableRecordFields = map[string]bool{
+	".ServiceBinding.Available": true, ".ServiceBinding.Deposit": true, ".ServiceBinding.Pricing": true, ".ServiceBinding.QoS": true,
+	".ServiceBinding.Options": true, ".ServiceBinding.DisabledTime": true,
+	".RequestContext.Providers": true, ".RequestContext.ServiceFeeCap": true, ".RequestContext.Timeout": true,
+	".RequestContext.RepeatedFrequency": true, ".RequestContext.RepeatedTotal": true, ".RequestContext.State": true,
+	".RequestContext.BatchState": true, ".RequestContext.BatchRequestCount": true, ".RequestContext.BatchResponseCount": true,
+	".RequestContext.BatchResponseThreshold": true, ".RequestContext.ResponseThreshold": true,
+}
+
+// lookupsIndependentOfConfiguration (C17.10): whether a query finds a record, and which records a list query returns,
+// depends on the records asked for alone. No branch in a query entry or in a read-only keeper function it reaches tests
+// a field that the life of ANOTHER stored record rewrites (a binding's availability, a context's provider list, fee cap,
+// timeout, state, ...): such a test makes stored records vanish from the answers when that configuration changes
+// (pending requests of a binding that was disabled, the request of a provider dropped from its context by an update).
+// Tests of presence (found), of the request's own arguments and of immutable identity fields are not concerned.
+func (c *Check) lookupsIndependentOfConfiguration(rule string, entries []*Func) {
+	reach := map[*Func]bool{}
+	var visit func(g *Func)
+	visit = func(g *Func) {
+		if g == nil || reach[g] || g.Body == nil || !g.isHandWritten() {
+			return
+		}
+		reach[g] = true
+		for _, h := range c.P.callees(g) {
+			visit(h)
+		}
+	}
+	for _, f := range entries {
+		visit(f)
+	}
+	var fs []*Func
+	for f := range reach {
+		mut := false
+		for _, e := range c.directEffects(f) {
+			if e.Mutates() {
+				mut = true
+			}
+		}
+		if !mut && (f.pkgName() == "keeper" || f.pkgName() == "types") {
+			fs = append(fs, f)
+		}
+	}
+	sort.Slice(fs, func(i, j int) bool { return fs[i].Name < fs[j].Name })
+	n := 0
+	for _, f := range fs {
+		bad := map[string]token.Pos{}
+		isPred := len(f.Res) == 1 && typeName(f.Res[0].Type()) == "bool"
+		for _, pa := range c.P.PathsOf(f) {
+			var conds []*Event
+			for _, ev := range pa.Events {
+				if ev.Kind == EvFact {
+					conds = append(conds, ev)
+				}
+			}
+			if isPred && len(pa.Ret) == 1 {
+				// a predicate's returned expression is a condition of its callers
+				conds = append(conds, &Event{Kind: EvFact, Fact: Fact{T: pa.Ret[0]}, Pos: pa.RetPos})
+			}
+			for _, ev := range conds {
+				n++
+				ev.Fact.T.Walk(func(t *Term) bool {
+					if mutableRecordFields[t.Op] {
+						// the field of a record read from the store (not of a value the caller handed in to be stored or validated)
+						fromStore := false
+						t.Walk(func(u *Term) bool {
+							if u.Op != "" && (strings.Contains(u.Op, "keeper.Keeper.Get") || strings.HasSuffix(u.Op, "KVStore.Get") || strings.Contains(u.Op, "Unmarshal")) {
+								fromStore = true
+							}
+							return true
+						})
+						if fromStore {
+							if _, dup := bad[t.Op]; !dup {
+								bad[t.Op] = ev.Pos
+							}
+						}
+					}
+					return true
+				})
+			}
+		}
+		var ks []string
+		for k := range bad {
+			ks = append(ks, k)
+		}
+		sort.Strings(ks)
+		for _, k := range ks {
+			c.fail(rule, unitConstruct(f, "answer-depends-on:"+strings.TrimPrefix(k, ".")), bad[k],
+				"a function on the query path branches on "+strings.TrimPrefix(k, ".")+" of a record read from the store — a field rewritten during that record's life: which records a query finds would change with it")
+		}
+		if len(ks) == 0 {
+			c.ok(rule, unitConstruct(f, "configuration-free"), f.Body.Pos(), "no branch on a rewritable field of a stored record")
+		}
+	}
+	c.Sites += n
+	c.req(len(fs) >= 10 && n >= 20, rule, "query-path-functions", token.NoPos, fmt.Sprintf("%d read-only functions on the query paths, %d branch facts examined", len(fs), n))
 }
